@@ -112,6 +112,7 @@ let () =
            let replies = List.filter (function EReply _ | EPanic _ -> true | _ -> false) evs in
            let aofs = List.filter (function EAof _ -> true | _ -> false) evs in
            List.iter (function
+             | _ when !stopped -> ()     (* the implementation stops at the panic: nothing after it is observable *)
              | EReply (conn, req, res, lc, lrc, lockid, cnt, rc, data) ->
                Printf.printf "ev reply %s %s %s %s %s %s %s %s %s\n" (sn conn) (sn req) (sn res) (sn lc) (sn lrc) (sn lockid) (sn cnt) (sn rc) (shex data)
              | EPanic site -> Printf.printf "ev panic %s\n" (string_of_chars site); stopped := true
